@@ -11,11 +11,13 @@ the generator state is a function of the seed and of what was sampled since seed
 structure Rng where
   f : List Int64 → Int64
   hist : List Int64 := []
+  /-- ghost: number of values drawn since the context was created -/
+  total : Nat := 0
 
 instance : Inhabited Rng := ⟨{ f := fun _ => 0 }⟩
 
 def Rng.draw (r : Rng) (bound : Int64) : Int64 × Rng :=
-  (r.f (r.hist ++ [bound]), { r with hist := r.hist ++ [bound] })
+  (r.f (r.hist ++ [bound]), { r with hist := r.hist ++ [bound], total := r.total + 1 })
 
 def Rng.reset (r : Rng) : Rng := { r with hist := [] }
 
